@@ -128,6 +128,7 @@ def run_case(case):
         it.start_seq = seq[0]
         it.started = True
         it.listing = listed()
+        it.cached_at_start = dict(psutil._pmap)
         it.flagged_at_start = set(pending_reused)
         pending_reused.clear()
         # PIDs whose cached object belongs to a previous owner of the PID
@@ -184,6 +185,15 @@ def run_case(case):
     def finish(it):
         got = [p for p, _ in it.yielded]
         alive_now = set(listed())
+        if it.attrs is not None:
+            # a cached process that the pass skipped (it vanished, or its PID
+            # was found recycled, while its info was collected) "went away":
+            # its object is dropped and never yielded again, even if the PID
+            # is listed again by the next pass
+            for pid_, obj_ in it.cached_at_start.items():
+                if pid_ in it.listing and pid_ not in got:
+                    forbid(pid_, obj_)
+                    labels.add("cached-process-skipped-by-a-pass")
         missing = [p for p in it.listing if p in alive_now and p not in got
                    and w.owner_inc(p) == it.inc_at_start.get(p)]
         if missing:
